@@ -145,10 +145,10 @@ theorem step1_spec {p} (hp : Down p) (prev) (c : Store) (hs : SortedLe c) :
       have h2 : ∀ q, (step1 q rest).filter p = [] := fun q =>
         List.eq_nil_of_sublist_nil (h1 ▸ (step1_sublist q rest).filter p)
       cases prev with
-      | none => simp [step1, List.filter_cons, hr, h1, h2]
+      | none => simp [step1, hr, h1, h2]
       | some q =>
         simp only [step1]
-        split <;> simp [List.filter_cons, hr, h1, h2]
+        split <;> simp [hr, h1, h2]
 
 theorem npEq_self_false {f : Option Int} (h : npEq f f = false) : f = Option.none := by
   cases f <;> simp_all [npEq]
@@ -226,7 +226,7 @@ theorem keepLast_spec {p} (hp : Down p) (acc) (c : Store) (hn : NanFirst c) :
           intro x hx hxv
           have := List.rel_of_pairwise_cons hn (List.mem_filter.mp hx).1 hxv
           simp_all
-      · simp [List.filter_cons, hr]
+      · simp [hr]
     · by_cases hr : p r = true
       · simp only [List.filter_cons, hr, if_true, accVal_cons]; exact ih _ hrest
       · simp only [List.filter_cons, hr]; exact ih _ hrest
@@ -400,7 +400,7 @@ def specRows (rows : Store) (asof : Option Int) : TS :=
 
 theorem specRead_eq (log : List Version) (asof : Option Int) : specRead log asof = specRows (logRows log) asof := by
   cases asof with
-  | none => simp only [specRead, specRows, filter_vis_none, group_filter]
+  | none => simp only [specRead, specRows, filter_vis_none]
   | some T => simp only [specRead, specRows, group_filter]; rfl
 
 theorem foldl_or_none (X : Store) (h : ∀ r ∈ X, r.val = Option.none) (a : Option Int) :
@@ -675,7 +675,7 @@ def firstRows (rows : Store) (asof : Option Int) : TS :=
 
 theorem specFirst_eq (log : List Version) (asof : Option Int) : specFirst log asof = firstRows (logRows log) asof := by
   cases asof with
-  | none => simp only [specFirst, firstRows, filter_vis_none, group_filter]
+  | none => simp only [specFirst, firstRows, filter_vis_none]
   | some T => simp only [specFirst, firstRows, group_filter]; rfl
 
 theorem firstVal_sortedLt (c : Store) (h : SortedLt c) : firstVal c = c.head?.bind (·.val) := by
@@ -707,7 +707,7 @@ theorem head_stamp_le {x y : Row} {X Y : Store} (hY : SortedLe (y :: Y))
     (h : ∀ p, Down p → accVal Option.none ((x :: X).filter p) = accVal Option.none ((y :: Y).filter p)) :
     y.stamp ≤ x.stamp := by
   have h1 := h _ (down_le x.stamp)
-  have hne : (x :: X).filter (fun r => decide (r.stamp ≤ x.stamp)) ≠ [] := by simp [List.filter_cons]
+  have hne : (x :: X).filter (fun r => decide (r.stamp ≤ x.stamp)) ≠ [] := by simp
   have hne' : (y :: Y).filter (fun r => decide (r.stamp ≤ x.stamp)) ≠ [] := by
     intro hc; rw [hc] at h1; exact hne (accVal_eq_none.mp h1)
   by_cases hy : y.stamp ≤ x.stamp
@@ -791,7 +791,7 @@ theorem sorted_split {q} (hq : Down q) (Z : Store) (hs : SortedLe Z) :
         intro r hr
         have := List.filter_eq_nil_iff.mp h1 r hr
         simpa using this
-      simp [List.filter_cons, hz, h1, h2]
+      simp [hz, h1, h2]
 
 /-- stable sort of a sorted column followed by rows of one stamp `s`: the new rows go after everything
     stamped `≤ s` -/
